@@ -63,7 +63,7 @@ def bad_range(cls, n, npad, u):
 METHODS_3D = ["read_inline", "read_crossline", "read_zslice", "read_inline_number", "read_crossline_number",
               "read_zslice_coord", "read_subvolume", "get_trace", "get_trace_window", "get_trace_by_coord", "cdiag", "adiag",
               "cdiag_crop", "adiag_crop", "cdiag_win", "gen_trace_header", "iline", "xline", "depth_slice", "trace",
-              "header", "subvolume_acc", "xarray"]
+              "header", "subvolume_acc", "xarray", "get_trace_window_grid"]
 METHODS_2D = ["get_trace", "get_trace_window", "read_subplane", "gen_trace_header", "trace", "header", "get_tracefield_2d"]
 
 
@@ -247,11 +247,18 @@ def run_case(case, ctx):
                 what = f"{m}({i}) with {n} traces, grid {n_il}x{n_xl}, padded {P[0]}x{P[1]}"
                 call = {"get_trace": lambda: r.get_trace(i), "trace": lambda: H.emu.trace[i],
                         "gen_trace_header": lambda: r.gen_trace_header(i), "header": lambda: H.emu.header[i]}[m]
-            elif m in ("get_trace_window", "get_trace_by_coord", "cdiag_win"):
+            elif m in ("get_trace_window", "get_trace_by_coord", "cdiag_win", "get_trace_window_grid"):
                 i = int(u[0] * T.n_tr)
                 a, b = bad_range(case["rng"], ns, P[2], u[1])
                 empty_ok = a >= b
-                if m == "get_trace_window":
+                if m == "get_trace_window_grid":
+                    # the public flag that addresses traces by grid position (what the diagonal readers use)
+                    g = int(u[0] * n_il * n_xl)
+                    if a < 0:
+                        allowed = [T.V.reshape(-1, ns)[g][a:b]]
+                    what = f"get_trace({g}, {a}, {b}, override_unstructured_mapping=True) with {ns} samples (padded {P[2]})"
+                    call = lambda: r.get_trace(g, a, b, override_unstructured_mapping=True)
+                elif m == "get_trace_window":
                     if a < 0:
                         allowed = [T.trace(i)[a:b]]
                     what = f"get_trace({i}, {a}, {b}) with {ns} samples (padded {P[2]})"
